@@ -258,10 +258,38 @@ theorem transfList_anySlice (n : Nsp) (b : List String) : ∀ (es es' : List Exp
       simp [transf_isSlice n b e e' he, transfList_anySlice n b es es'' hes]
 
 
+-- the index of a subscript: context `hs : transf n b s = .ok s'`, `hws : wfSlice s`, goal `wfSlice s'`
+set_option hygiene false in
+macro "index_cases" : tactic => `(tactic| (
+        cases s with
+        | slice lo up st =>
+          simp only [wfSlice] at hws
+          simp only [transf] at hs
+          obtain ⟨lo', hlo, hs⟩ := bind_ok hs
+          obtain ⟨up', hup, hs⟩ := bind_ok hs
+          obtain ⟨st', hst, hs⟩ := bind_ok hs
+          cases pure_ok hs
+          simp only [wfSlice]
+          exact ⟨transfOpt_wf n b lo lo' hlo hws.1, transfOpt_wf n b up up' hup hws.2.1, transfOpt_wf n b st st' hst hws.2.2⟩
+        | tuple es =>
+          simp only [wfSlice] at hws
+          simp only [transf] at hs
+          obtain ⟨es', hes, hs⟩ := bind_ok hs
+          cases pure_ok hs
+          simp only [wfSlice]
+          rw [transfList_anySlice n b es es' hes]
+          split
+          · rename_i hany; rw [if_pos hany] at hws; exact transfList_wfSliceElts n b es es' hes hws
+          · rename_i hany; rw [if_neg hany] at hws; exact transfList_wfElts n b es es' hes hws
+        | starred _ => simp [wfSlice] at hws
+        | _ =>
+          simp only [wfSlice] at hws
+          have hs' := transf_wf n b _ s' hs hws
+          exact wfSlice_of_wfE hs' (by rw [transf_isTuple n b _ s' hs]; rfl)))
+
 theorem compTargetNames_kind {t : Expr} {ns : List String} (h : compTargetNames t = .ok ns) : targetKind t = true := by
   cases t <;> first | rfl | (simp only [compTargetNames] at h; cases h)
 
-set_option maxHeartbeats 2000000 in
 mutual
   theorem transf_wf (n : Nsp) : ∀ (b : List String) (e e' : Expr), transf n b e = .ok e' → wfE e → wfE e'
     | b, .name id, e', h, _ => by simp only [transf] at h; exact getLoad_wf h
@@ -387,31 +415,7 @@ mutual
         simp only [wfE]
         refine ⟨transf_wf n b v v' hv hw.1, ?_⟩
         have hws := hw.2
-        cases s with
-        | slice lo up st =>
-          simp only [wfSlice] at hws
-          simp only [transf] at hs
-          obtain ⟨lo', hlo, hs⟩ := bind_ok hs
-          obtain ⟨up', hup, hs⟩ := bind_ok hs
-          obtain ⟨st', hst, hs⟩ := bind_ok hs
-          cases pure_ok hs
-          simp only [wfSlice]
-          exact ⟨transfOpt_wf n b lo lo' hlo hws.1, transfOpt_wf n b up up' hup hws.2.1, transfOpt_wf n b st st' hst hws.2.2⟩
-        | tuple es =>
-          simp only [wfSlice] at hws
-          simp only [transf] at hs
-          obtain ⟨es', hes, hs⟩ := bind_ok hs
-          cases pure_ok hs
-          simp only [wfSlice]
-          rw [transfList_anySlice n b es es' hes]
-          split
-          · rename_i hany; rw [if_pos hany] at hws; exact transfList_wfSliceElts n b es es' hes hws
-          · rename_i hany; rw [if_neg hany] at hws; exact transfList_wfElts n b es es' hes hws
-        | starred _ => simp [wfSlice] at hws
-        | _ =>
-          simp only [wfSlice] at hws
-          have hs' := transf_wf n b _ s' hs hws
-          exact wfSlice_of_wfE hs' (by rw [transf_isTuple n b _ s' hs]; rfl)
+        index_cases
     | b, .call f as ks, e', h, hw => by
         simp only [wfE] at hw
         simp only [transf] at h
@@ -461,6 +465,7 @@ mutual
         cases pure_ok h
         simp only [wfE]
         exact ⟨transf_wf n b t t' ht hw.1, transf_wf n b x x' hx hw.2.1, transf_wf n b y y' hy hw.2.2⟩
+  termination_by structural _ x => x
 
   theorem transfList_wfL (n : Nsp) : ∀ (b : List String) (es es' : List Expr), transfList n b es = .ok es' → wfL es → wfL es'
     | b, [], es', h, _ => by simp only [transfList] at h; cases h; exact wfL_nil
@@ -471,6 +476,7 @@ mutual
         obtain ⟨es'', hes, h⟩ := bind_ok h
         cases pure_ok h
         exact wfL_cons (transf_wf n b e e' he hw.1) (transfList_wfL n b es es'' hes hw.2)
+  termination_by structural _ x => x
 
   theorem transfList_wfElts (n : Nsp) : ∀ (b : List String) (es es' : List Expr), transfList n b es = .ok es' →
       wfElts es → wfElts es'
@@ -491,6 +497,7 @@ mutual
         | _ =>
           simp only [wfElts] at hw
           exact wfElts_cons (transf_wf n b _ e' he hw.1) (transfList_wfElts n b es es'' hes hw.2)
+  termination_by structural _ x => x
 
   theorem transfList_wfSliceElts (n : Nsp) : ∀ (b : List String) (es es' : List Expr), transfList n b es = .ok es' →
       wfSliceElts es → wfSliceElts es'
@@ -523,6 +530,7 @@ mutual
           have he' := transf_wf n b _ e' he hw.1
           have ih := transfList_wfSliceElts n b es es'' hes hw.2
           cases e' <;> first | (simp [wfE] at he'; done) | (simp only [wfSliceElts]; exact ⟨he', ih⟩)
+  termination_by structural _ x => x
 
   theorem transfOpt_wf (n : Nsp) : ∀ (b : List String) (o o' : Option Expr), transfOpt n b o = .ok o' → wfO o → wfO o'
     | b, none, o', h, _ => by simp only [transfOpt] at h; cases h; simp only [wfO]
@@ -533,6 +541,7 @@ mutual
         cases pure_ok h
         simp only [wfO]
         exact transf_wf n b e e' he hw
+  termination_by structural _ x => x
 
   theorem transfOptList_wf (n : Nsp) : ∀ (b : List String) (es es' : List (Option Expr)), transfOptList n b es = .ok es' →
       wfOL es → wfOL es'
@@ -552,6 +561,7 @@ mutual
         cases pure_ok h
         simp only [wfOL]
         exact ⟨transf_wf n b e e' he hw.1, transfOptList_wf n b es es'' hes hw.2⟩
+  termination_by structural _ x => x
 
   theorem transfItems_wf (n : Nsp) : ∀ (b : List String) (its its' : List DictItem), transfItems n b its = .ok its' →
       wfItems its → wfItems its'
@@ -573,6 +583,7 @@ mutual
         cases pure_ok h
         simp only [wfItems]
         exact ⟨transf_wf n b k k' hk hw.1, transf_wf n b v v' hv hw.2.1, transfItems_wf n b its its'' hi hw.2.2⟩
+  termination_by structural _ x => x
 
   theorem transfKeywords_wf (n : Nsp) : ∀ (b : List String) (ks ks' : List Keyword), transfKeywords n b ks = .ok ks' →
       wfKws ks → wfKws ks'
@@ -585,6 +596,7 @@ mutual
         cases pure_ok h
         simp only [wfKws]
         exact ⟨transf_wf n b v v' hv hw.1, transfKeywords_wf n b ks ks'' hk hw.2⟩
+  termination_by structural _ x => x
 
   theorem transfComps_wf (n : Nsp) : ∀ (b : List String) (gs gs' : List Comp), transfComps n b gs = .ok gs' → wfG gs → wfG gs'
     | b, [], gs', h, _ => by simp only [transfComps] at h; cases h; simp only [wfG]
@@ -600,8 +612,8 @@ mutual
         have htt := transfTarget_wf n b t t' ht hw.2.1
         exact ⟨by rw [htt.2]; exact hw.1, htt.1, transf_wf n b i i' hi hw.2.2.1, transfList_wfL n b ifs ifs' hifs hw.2.2.2.1,
           transfComps_wf n b gs gs'' hg hw.2.2.2.2⟩
-
-  /-- targets keep their kind and stay well-formed -/
+  termination_by structural _ x => x
+  -- targets keep their kind and stay well-formed
   theorem transfTarget_wf (n : Nsp) : ∀ (b : List String) (t t' : Expr), transfTarget n b t = .ok t' →
       wfE t → wfE t' ∧ targetKind t' = targetKind t
     | b, .name id, t', h, _ => by simp only [transfTarget] at h; cases h; exact ⟨wfE_name id, rfl⟩
@@ -624,14 +636,16 @@ mutual
         cases pure_ok h
         exact ⟨by simp only [wfE]; exact transf_wf n b v v' hv hw, rfl⟩
     | b, .subscript v s, t', h, hw => by
-        -- same tree as the expression transformer builds
-        have : transf n b (.subscript v s) = .ok t' := by simpa only [transfTarget, transf] using h
-        have hw' := transf_wf n b (.subscript v s) t' this hw
-        simp only [transf] at this
-        obtain ⟨v', hv, this⟩ := bind_ok this
-        obtain ⟨s', hs, this⟩ := bind_ok this
-        cases pure_ok this
-        exact ⟨hw', rfl⟩
+        simp only [wfE] at hw
+        simp only [transfTarget] at h
+        obtain ⟨v', hv, h⟩ := bind_ok h
+        obtain ⟨s', hs, h⟩ := bind_ok h
+        cases pure_ok h
+        refine ⟨?_, rfl⟩
+        simp only [wfE]
+        refine ⟨transf_wf n b v v' hv hw.1, ?_⟩
+        have hws := hw.2
+        index_cases
     | b, .starred _, t', _, hw => by simp [wfE] at hw
     | b, .const _, t', h, hw => by simp only [transfTarget] at h; cases h; exact ⟨hw, rfl⟩
     | b, .joinedStr _, t', h, hw => by simp only [transfTarget] at h; cases h; exact ⟨hw, rfl⟩
@@ -654,8 +668,8 @@ mutual
     | b, .yield_ _, t', h, hw => by simp only [transfTarget] at h; cases h; exact ⟨hw, rfl⟩
     | b, .yieldFrom _, t', h, hw => by simp only [transfTarget] at h; cases h; exact ⟨hw, rfl⟩
     | b, .await _, t', h, hw => by simp only [transfTarget] at h; cases h; exact ⟨hw, rfl⟩
-
-  /-- elements of a tuple / list target -/
+  termination_by structural _ x => x
+  -- elements of a tuple / list target
   theorem transfTargets_wf (n : Nsp) : ∀ (b : List String) (es es' : List Expr), transfTargets n b es = .ok es' →
       wfElts es → wfElts es'
     | b, [], es', h, _ => by simp only [transfTargets] at h; cases h; exact wfElts_nil
@@ -675,6 +689,7 @@ mutual
         | _ =>
           simp only [wfElts] at hw
           exact wfElts_cons (transfTarget_wf n b _ e' he hw.1).1 (transfTargets_wf n b es es'' hes hw.2)
+  termination_by structural _ x => x
 
   theorem transfList_parts (n : Nsp) : ∀ (b : List String) (vs vs' : List Expr), transfList n b vs = .ok vs' →
       wfParts vs → wfParts vs'
@@ -739,6 +754,7 @@ mutual
               exact transfList_parts n b ws ws' hws' hws
             | _ => simp [wfSpec] at hws
         | _ => simp [wfParts] at hw
+  termination_by structural _ x => x
 end
 
 end OlVerif
